@@ -34,16 +34,16 @@ open Pdt Pdt.Resource
 
 /-- the frame table of the current source, literally -/
 theorem withFrames_pinned : Gen.withFrames = [
-  ("read_csv", [("yield from parse_blocks", ["nullcontext(<param>) if <local> else open(<param>)"])],
+  ("read_csv", [("yield from parse_blocks", ["either(nullcontext(<param>), open(<param>))"])],
     [], [], []),
   ("write_csv", [("call _table_to_csv",
-    ["open(<param>, 'w') if isinstance(<param>, (str, os.PathLike)) else nullcontext(<param>)"])], [], [], []),
+    ["either(nullcontext(<param>), open(<param>))"])], [], [], []),
   ("read_excel", [("yield from parse_blocks", ["closing(<local>)"])], [], ["read_sheets"], []),
   ("write_excel", [("call write_excel_func", [])], [], [], []),
   ("read_sheets", [("yield",
-    ["closing(openpyxl.load_workbook(<param>, read_only=True, data_only=True, keep_links=False))"])], [], [], []),
+    ["closing(openpyxl.load_workbook(<param>))"])], [], [], []),
   ("write_excel_openpyxl", [("call _append_table_to_openpyxl_worksheet", []), ("call <local>.save", []),
-    ("call <local>.write", ["open(<param>, 'wb')"]), ("call <local>.save", [])], [], [], []),
+    ("call <local>.write", ["open(<param>)"]), ("call <local>.save", [])], [], [], []),
   ("write_excel_xlsxwriter", [("call _append_table_to_xlsxwriter_worksheet", [])],
     ["xlsxwriter.Workbook(<param>, <param>)"], ["<param>.items"], ["<local>.close()"]),
   ("FileReader.read", [("yield from read_csv", []), ("yield from read_excel", [])], [], [], []),
@@ -1360,7 +1360,7 @@ theorem bare_open_leaks :
 /-- the table of read_sheets without `closing(...)` -/
 def noClosingTable : Table :=
   [("read_sheets", [("yield", [])],
-    ["openpyxl.load_workbook(<param>, read_only=True, data_only=True, keep_links=False)"], [], []),
+    ["openpyxl.load_workbook(<param>)"], [], []),
    ("read_excel", [("yield from parse_blocks", ["closing(<local>)"])], [], ["read_sheets"], [])]
 
 theorem no_closing_leaks : ¬ EnclosedByWith noClosingTable ∧
@@ -1370,9 +1370,9 @@ theorem no_closing_leaks : ¬ EnclosedByWith noClosingTable ∧
 /-- a writer / reader that closes the stream it was given -/
 def closesStreamTable : Table :=
   [("write_csv", [("call _table_to_csv",
-      ["open(<param>, 'w') if isinstance(<param>, (str, os.PathLike)) else nullcontext(<param>)"])], [], [], ["<local>.close()"]),
+      ["either(nullcontext(<param>), open(<param>))"])], [], [], ["<local>.close()"]),
    ("read_csv", [("yield from parse_blocks",
-      ["nullcontext(<param>) if <local> else open(<param>)"])], [], [], ["<local>.close()"])]
+      ["either(nullcontext(<param>), open(<param>))"])], [], [], ["<local>.close()"])]
 
 theorem explicit_close_closes_caller_stream : ¬ EnclosedByWith closesStreamTable ∧
     callerClosed (runAll (writeCsv closesStreamTable (.stream 4) 1) [.next, .next]) = [4] ∧
